@@ -95,4 +95,27 @@ where
         }));
     }
     e.par(jobs);
+    extreme_parts(e, check);
+}
+
+/// Enumerated extreme textures (see gens::extreme_textures), spread over the workers.
+pub fn extreme_parts<F>(e: &'static Engine, check: F)
+where
+    F: Fn(&BuildCase, &str, &mut Obs) -> Result<(), Fail> + Send + Sync + Copy + 'static,
+{
+    let cases = std::sync::Arc::new(crate::gens::extreme_textures(e.tier == crate::engine::Tier::Quick));
+    let chunks = 64usize;
+    let mut jobs: Vec<Job> = Vec::new();
+    for ch in 0..chunks {
+        let cases = cases.clone();
+        jobs.push(Box::new(move |jc: &mut JobCtx| {
+            for c in cases.iter().skip(ch).step_by(chunks) {
+                jc.run_case(c, |c| c.to_json(), |c, o| {
+                    o.label("part:extreme_textures");
+                    check(c, "extreme_texture", o)
+                });
+            }
+        }));
+    }
+    e.par(jobs);
 }
